@@ -422,7 +422,19 @@ def playback(h, logdir):
                  "    assert!(r.is_err(), \"expected an explicit panic, none was raised\");\n}\n" % (h.name, h.name, h.name)]
     if not tests:
         return {"status": "no-cex", "detail": "Kani produced no concrete playback test (%s)" % r.get("verdict")}
-    code = tests[0]
+    # Kani prints one test per failed check AND one per satisfied cover: the tests generated for covers pass natively by
+    # construction, so the ones for failed checks are tried first (up to three), and the first that reproduces is kept
+    non_cover = [t for t in tests if not re.search(r"/// Check for `cover`", t)]
+    candidates = (non_cover or tests)[:3]
+    last = None
+    for code in candidates:
+        last = _play_one(h, root, logdir, code)
+        if last["status"] == "reproduced":
+            return last
+    return last
+
+
+def _play_one(h, root, logdir, code):
     m = re.search(r"fn (kani_concrete_playback_\w+)\(", code)
     tname = m.group(1)
     pdir = os.path.join(root, "play_" + h.name)
